@@ -7,17 +7,24 @@ called explicitly.  External actions happen only between iterations: every opera
 (a SUBSCRIBE/UNSUBSCRIBE request built with aiohttp.test_utils.make_mocked_request and handed to the handler as a
 task; an assignment to a state variable from a loop callback; the completion of an outstanding NOTIFY; a clock
 advance) followed by running the loop until it is quiescent (no ready handle, no due timer).  A clock advance moves
-the clock to every due timer in turn, as a sleeping loop does.  datetime.now() in server.py / client.py is the same
+the clock to every due timer in turn, as a sleeping loop does.  A LATE assignment (["late", dt, var, value]) is the one
+schedule in which an action meets overdue timers: the clock moves on by dt while the loop does NOT run (a blocking
+stretch), the assignment is queued with call_soon and only then the loop runs - _run_once() appends the timers that
+became due BEHIND the already-ready assignment, so the setter sees a pending deferred event whose deadline has passed
+and the timer fires right after it in the same iteration (one quiescence run).  datetime.now() in server.py / client.py is the same
 scripted clock seen as wall time (base 2023-11-14T22:13:20Z, while loop time starts at 1000 s - the two clocks
 differ as they do in reality).  The requester is a scripted fake: every NOTIFY is recorded (virtual time, URL, SID,
 SEQ, parsed body) and suspends on a future that the history completes in any order.
 
 case    = {"cfg": [[evented, rate_ms, default|None, max|None], ...], "ops": [op, ...]}
 op      = ["sub", cb|None, tmo, sidref] | ["unsub", sidref] | ["set", var, value] | ["adv", dt_ms]
-        | ["deliver", k, outcome] | ["jump", sid_index, key]
+        | ["late", dt_ms, var, value] | ["deliver", k, outcome] | ["jump", sid_index, key]
 tmo     = ["abs"] | ["sec", n, style] | ["raw", text]          sidref = ["abs"] | ["empty"] | ["idx", n] | ["bogus"]
 obs     = {"init": [run...], "steps": [[res, [run...]], ...]}   run = [t_ms, [var...], [[cb, sid, seq, [[var, value|None]...]]...]]
 res     = ["none"] | ["resp", status, sid|None, granted|None, first] | ["raised", cls] | ["set", code] | ["deliv", sid, seq] | ["jump"]
+obs["late"] (evidence only, not part of the comparison) = for every late assignment the situation it met:
+          "overdue-same" (a deferred event of the SAME variable was pending past its deadline), "overdue-other" (only
+          other variables' timers were overdue), "pending" (a deferred event pending, not yet due), "idle"
 Mirrors coq/theories/C15/Model.v 1:1.
 """
 from __future__ import annotations
@@ -147,6 +154,7 @@ class World:
         self.resp = {}             # request tag -> (status, headers, first)
         self.cur_tag = None
         self.step_notes = 0        # NOTIFYs issued in the current step
+        self.late_info = []        # situation met by every late assignment (evidence only)
         world = self
 
         class Requester(UpnpRequester):
@@ -305,6 +313,33 @@ class World:
             self.loop.call_soon(assign)
             self.loop.quiesce()
             return ["set", out["code"]], self.collect_run()
+        if kind == "late":
+            var = self.svc.state_variables.get(f"V{op[2]}")
+            _Clock.ms += op[1]                 # the clock moves on; the loop does not run meanwhile
+            overdue = [w for w in self.loop.due_ms() if w <= _Clock.ms]
+            own = getattr(var, "_defered_event", None)
+            if own is not None and not own._cancelled and round((own._when - LOOP_T0) * 1000) <= _Clock.ms:
+                self.late_info.append("overdue-same")
+            elif overdue:
+                self.late_info.append("overdue-other")
+            else:
+                self.late_info.append("pending" if own is not None else "idle")
+            if var is None:
+                self.loop.quiesce()
+                return ["none"], self.collect_run()
+            out = {}
+
+            def assign_late():
+                from async_upnp_client.exceptions import UpnpValueError
+                try:
+                    var.value = op[3]
+                    out["code"] = 1
+                except UpnpValueError:
+                    out["code"] = 2
+
+            self.loop.call_soon(assign_late)   # already in the ready queue when the iteration starts:
+            self.loop.quiesce()                # _run_once() puts the due timers behind it
+            return ["set", out["code"]], self.collect_run()
         if kind == "adv":
             target = _Clock.ms + op[1]
             runs = []
@@ -360,6 +395,15 @@ MALFORMED = ["infinite", "Second-infinite", "Second-", "", "second-1.5", "Second
 LENIENT = ["1800", " Second-5 ", "Second--5", "Second-0", "Second-Second-7", "Second-1_0", "Second-+9",
            "sEcOnD-0012", "Second-999999999999999999", "Second--999999999999999", "\tsecond-3\n", "Second-3000000000"]
 ADV = [0, 50, 100, 150, 199, 200, 201, 500, 1000, 1999, 2000, 2001, 5000, 29000, 31000, 3600000]
+VALS = [0, 1, 2, 3, 5, 7]
+
+
+def _late_dt(rng, rate):
+    """a delay around the moderation interval (so that a pending deferred event is overdue, just due or not yet due)"""
+    if rate and rng.random() < 0.8:
+        return max(0, rng.choice([rate - 150, rate - 50, rate - 1, rate, rate, rate + 1, rate + 50, rate + 300, 2 * rate,
+                                  3 * rate]))
+    return rng.choice(ADV[:-3])
 
 
 class Plugin:
@@ -373,7 +417,8 @@ class Plugin:
     SHARD = 60
     SEARCH_CASES = 3000
     RULE = ("histories of SUBSCRIBE / renewal / UNSUBSCRIBE (known, unknown, expired SIDs) / variable assignments (same, "
-            "new, out-of-range value) / clock advances / NOTIFY completions (any order, success or transport error) / key "
+            "new, out-of-range value) / clock advances / late assignments (the clock moved on while the loop did not run; "
+            "the assignment is processed before the timers that became due) / NOTIFY completions (any order, success or transport error) / key "
             "jumps to the wrap, over 1-4 variables (evented with moderation 0 / 0.2 s / 2 s, or not evented; with and "
             "without default and range) and any number of subscribers; every history up to a fixed depth over a small "
             "alphabet (thorough) plus random histories; non-trivial = at least one NOTIFY beyond an initial event or a "
@@ -386,7 +431,8 @@ class Plugin:
         "payload writer, the NOTIFY body parser (ElementTree) and the Gallina printers",
         "tools/gen/eventing.py: DEFAULT_TIMEOUT and the three constants of get_next_seq read from server.py with ast",
         "CPython 3.12 asyncio semantics at quiescence granularity as written in C15/Model.v (create_task runs on the next "
-        "iteration, call_later fires once loop time reaches it, gather) - tied by the correspondence on every run",
+        "iteration, call_later fires once loop time reaches it, gather; for a late assignment: _run_once() appends the due "
+        "timers behind the handles that are already ready) - tied by the correspondence on every run",
         "Python int(str) on ASCII input, str.lower on ASCII, str.replace, datetime/timedelta range (OverflowError) as in Model.v",
         "voluptuous Range validation of ui4 values; ElementTree rendering of the event body",
     ]
@@ -451,8 +497,23 @@ class Plugin:
         nsub = 0
         n = rng.randint(3, maxlen)
         maxsub = rng.choice([1, 2, 3, 3])
+        moderated = [j for j, d in enumerate(cfg) if d[0] and d[1] > 0]
+        p_late = rng.choice([0.0, 0.15, 0.3, 0.5]) if moderated else 0.04
         for _ in range(n):
             k = rng.random()
+            if moderated and nsub and k > 0.97:
+                # the situation itself: a change is sent, a second one is held back, a third arrives past the deadline
+                # before the loop ran the timer (on the same variable, or on another one)
+                i = rng.choice(moderated)
+                j = i if rng.random() < 0.75 else rng.randrange(nv)
+                a, b, cc = rng.sample(VALS, 3)
+                ops.append(["adv", cfg[i][1] + rng.choice([0, 1, 500])])
+                ops.append(["set", i, a])
+                if rng.random() < 0.5:
+                    ops.append(["adv", rng.choice([0, 1, 50, 100])])
+                ops.append(["set", i, b])
+                ops.append(["late", _late_dt(rng, cfg[i][1]), j, cc])
+                continue
             if (nsub == 0 and k < 0.5) or (k < 0.12 and nsub < maxsub):
                 ops.append(["sub", rng.choice([1, 2, 3]) if rng.random() < 0.95 else None, self._rand_tmo(rng), ["abs"]])
                 nsub += 1
@@ -465,8 +526,12 @@ class Plugin:
             elif k < 0.60:
                 i = rng.randrange(nv) if rng.random() < 0.97 else nv + 1
                 mx = cfg[i][3] if i < nv else None
-                x = rng.choice([0, 1, 2, 3, 5, 7]) if rng.random() < 0.9 or mx is None else mx + rng.choice([0, 1, 5])
-                ops.append(["set", i, x])
+                x = rng.choice(VALS) if rng.random() < 0.9 or mx is None else mx + rng.choice([0, 1, 5])
+                if rng.random() < p_late:
+                    rate = cfg[i][1] if i < nv and cfg[i][1] else (cfg[rng.choice(moderated)][1] if moderated else 0)
+                    ops.append(["late", _late_dt(rng, rate), i, x])
+                else:
+                    ops.append(["set", i, x])
             elif k < 0.85:
                 ops.append(["adv", rng.choice(ADV)])
             elif k < 0.96:
@@ -478,7 +543,7 @@ class Plugin:
 
     ALPHA = [["sub", 1, ["sec", 1, 1], ["abs"]], ["sub", 2, ["abs"], ["abs"]], ["sub", 1, ["sec", 2, 0], ["idx", 0]],
              ["unsub", ["idx", 0]], ["unsub", ["idx", 1]], ["set", 0, 1], ["set", 0, 2], ["set", 1, 1],
-             ["adv", 100], ["adv", 200], ["adv", 1000], ["deliver", 0, 200]]
+             ["adv", 100], ["adv", 200], ["adv", 1000], ["deliver", 0, 200], ["late", 200, 0, 3]]
     ALPHA_CFG = [[True, 200, 0, None], [True, 0, None, None]]
 
     def _exhaustive(self, depth):
@@ -518,6 +583,11 @@ class Plugin:
             if o2 and rng.random() < 0.5:
                 del o2[rng.randrange(len(o2))]
             o2.insert(rng.randrange(len(o2) + 1), ["adv", rng.choice(ADV)])
+            sets = [j for j, o in enumerate(o2) if o[0] == "set"]
+            if sets and rng.random() < 0.5:
+                j = rng.choice(sets)                      # an assignment becomes a late one
+                rate = case["cfg"][o2[j][1]][1] if o2[j][1] < len(case["cfg"]) else 0
+                o2[j] = ["late", _late_dt(rng, rate), o2[j][1], o2[j][2]]
             out.append({"cfg": case["cfg"], "ops": o2})
         return out
 
@@ -531,7 +601,7 @@ class Plugin:
                 for op in case["ops"]:
                     res, runs = w.do(op)
                     steps.append([res, runs])
-                return {"init": w.init_runs, "steps": steps}
+                return {"init": w.init_runs, "steps": steps, "late": w.late_info}
             finally:
                 w.close()
 
@@ -561,6 +631,8 @@ class Plugin:
             return f"oSet {op[1]} {op[2]}"
         if k == "adv":
             return f"oAdv {op[1]}"
+        if k == "late":
+            return f"oLate {op[1]} {op[2]} {op[3]}"
         if k == "deliver":
             return f"oDel {op[1]} {op[2]}"
         return f"oJmp {op[1]} {op[2]}"
@@ -606,7 +678,7 @@ class Plugin:
                 later += sum(1 for n in r[2] if n[2] != 0)
             if res[0] == "resp" and res[1] != 200:
                 odd = True
-            if op[0] == "set" and res == ["set", 1] and not runs:
+            if op[0] in ("set", "late") and res == ["set", 1] and not runs:
                 odd = True
         if not later and not odd:
             return None
@@ -616,7 +688,7 @@ class Plugin:
         return {"history": case, "impl_observations": obs}
 
     def summarize(self, cases, obss):
-        kinds, rkinds = {}, {}
+        kinds, rkinds, late = {}, {}, {}
         lens, notes, nvars = [], 0, {}
         for c, o in zip(cases, obss):
             lens.append(len(c["ops"]))
@@ -629,12 +701,16 @@ class Plugin:
                     tk = "tmo:" + (t[0] if t[0] != "raw" else ("malformed" if t[1] in MALFORMED else "lenient"))
                     kinds[tk] = kinds.get(tk, 0) + 1
                 kinds[key] = kinds.get(key, 0) + 1
+            if isinstance(o, dict):
+                for sit in o.get("late", []):
+                    late[sit] = late.get(sit, 0) + 1
             if isinstance(o, dict) and "steps" in o:
                 for res, runs in o["steps"]:
                     k = res[0] + (f":{res[1]}" if res[0] in ("resp", "set") else "")
                     rkinds[k] = rkinds.get(k, 0) + 1
                     notes += sum(len(r[2]) for r in runs)
         return {"ops_by_kind": kinds, "results_by_kind": rkinds, "notify_requests": notes,
+                "late_assignments_by_situation": late,
                 "variables_per_service": nvars,
                 "history_length_min_max": [min(lens), max(lens)] if lens else []}
 
@@ -643,7 +719,10 @@ class Plugin:
         for i in range(len(ops)):
             if len(ops) > 1:
                 yield {"cfg": case["cfg"], "ops": ops[:i] + ops[i + 1:]}
+        for i, o in enumerate(ops):
+            if o[0] == "late":                     # an ordinary assignment instead / no delay
+                yield {"cfg": case["cfg"], "ops": ops[:i] + [["set", o[2], o[3]]] + ops[i + 1:]}
         if len(case["cfg"]) > 1:
             last = len(case["cfg"]) - 1
-            if not any(o[0] == "set" and o[1] >= last for o in ops):
+            if not any((o[0] == "set" and o[1] >= last) or (o[0] == "late" and o[2] >= last) for o in ops):
                 yield {"cfg": case["cfg"][:-1], "ops": ops}
